@@ -386,8 +386,9 @@ func fuzzy(elems []any, nonTerminals []lex.Token, defaultField string) ([]any, [
 		return elems, nonTerminals, false
 	}
 
+	// the distance has to be a plain literal, not an expression that happens to print like a number
 	distance, ok := elems[2].(*expr.Expression)
-	if !ok {
+	if !ok || distance.Op != expr.Literal {
 		return elems, nonTerminals, false
 	}
 
@@ -431,8 +432,9 @@ func boost(elems []any, nonTerminals []lex.Token, defaultField string) ([]any, [
 		return elems, nonTerminals, false
 	}
 
+	// the power has to be a plain literal, not an expression that happens to print like a number
 	power, ok := elems[2].(*expr.Expression)
-	if !ok {
+	if !ok || power.Op != expr.Literal {
 		return elems, nonTerminals, false
 	}
 
